@@ -452,7 +452,7 @@ def save_cases(ctx, saves):
     return cases
 
 
-def run_save_side(ctx, cases, exe, build, shards=None, samples=None):
+def run_save_side(ctx, cases, exe, build, shards=None, samples=None, timeout=300):
     viol = collections.OrderedDict()
     stats = collections.Counter()
 
@@ -461,8 +461,9 @@ def run_save_side(ctx, cases, exe, build, shards=None, samples=None):
         if key not in viol or len(json.dumps(payload)) < len(json.dumps(viol[key][1])):
             viol[key] = (what, payload, False)
 
-    res = vlib.run_inkdrive(cases, exe, timeout=300, shards=shards)
-    # a process death (stack overflow: not catchable) is attributed to its phase: the case is run again without
+    res = vlib.run_inkdrive(cases, exe, timeout=timeout, shards=shards)
+    # a process death (stack overflow: not catchable; rc=-9: no answer within the timeout, an endless loop) is
+    # attributed to its phase: the case is run again without
     # the play-on phase; if it then completes, load_state answered Ok and reset + replay can be judged, and the
     # death happened while the accepted save was played on (same class as accepted_save_then_play_panics)
     dead = [i for i, (c, r) in enumerate(zip(cases, res))
@@ -793,11 +794,14 @@ def value_side(ctx, rng, std_exe, stream_exe, box):
             # the play-on phase after an accepted load (statistics only) is the same engine in both builds: run once;
             # small shards: a shard whose process dies (stack overflow while playing on) is re-run case by case
             bc = vcases if build == "std" else [dict(c, play=False) for c in vcases]
-            v, s_ = run_save_side(ctx, bc, exe, build, shards=(8 if build == "std" else 2) * vlib.NPROC,
-                                  samples=box.setdefault("play_crashes", []))
-            for k, x in v.items():
-                viol.setdefault(k, x)
-            stats.update({k.replace("save[", "value_save["): n for k, n in s_.items()})
+            for lo in range(0, len(bc), 2400):       # shards of ~40 cases, 25 s each: an endless loop costs little
+                part = bc[lo:lo + 2400]
+                v, s_ = run_save_side(ctx, part, exe, build, shards=max(1, len(part) // 40),
+                                      samples=box.setdefault("play_crashes", []), timeout=25)
+                for k, x in v.items():
+                    if k not in viol or len(json.dumps(x[1])) < len(json.dumps(viol[k][1])):
+                        viol[k] = x
+                stats.update({k.replace("save[", "value_save["): n for k, n in s_.items()})
         box["wall_direct"] = round(time.time() - t0, 1)
         mism, err = run_save_model(ctx, mcases, ink_exe, stats)
         box.update(viol=viol, stats=stats, mismatches=mism, model_err=err, wall=round(time.time() - t0, 1))
